@@ -11,8 +11,8 @@ ASSUMPTIONS = ['worlds are enumerated: bases of <= 6 atoms (incl. query atoms ou
 TRUSTED = []
 FLOOR = {'quick': 300, 'thorough': 3000}
 BUDGET = {'quick': 90, 'thorough': 1200}
-N = {'quick': 700, 'thorough': 10000}
-FAMILIES = [('chain', 10), ('indep', 40), ('d4', 52)]
+N = {'quick': 1600, 'thorough': 20000}
+FAMILIES = [('chain', 10), ('indep', 30), ('d4', 38), ('multiex', 55), ('conjcons', 72)]
 selftest = opcommon.selftest_birds
 
 
